@@ -123,11 +123,11 @@ pub fn run(quick: bool, w: &mut Worker, stats: &mut Stats) {
     }
     stats.max("fragment_sequence_length", k as u64);
     // rule-body sequences inside `r = { ... }`
-    let kb = if quick { 3 } else { 5 };
+    let kb = if quick { 4 } else { 5 };
     for kk in 1..=kb {
         for first in 0..frag::BODY_FRAGMENTS.len() {
             frag::for_sequences(frag::BODY_FRAGMENTS, kk, first, "r = { ", " }", &mut |t| unit(w, stats, t, "rule-body"));
-            if kk <= kb - 1 {
+            if kk <= 3 || (!quick && kk <= kb - 1) {
                 frag::for_sequences(frag::BODY_FRAGMENTS, kk, first, "a = @{ \"x\" } WHITESPACE = _{ \" \" } r = ${ a ~ ", " }", &mut |t| unit(w, stats, t, "rule-body-2"));
             }
         }
